@@ -244,19 +244,19 @@ fn map_get_str<'a>(m: &'a mut HashMap<String, FileState>, k: &str) -> (r: Option
 impl FileState {
     // ASSUMED here, PROVED in unit D (FileState::empty: timestamp 0, hash of the empty content, not executable)
     #[verifier::external_body] fn empty() -> (r: FileState) ensures r.timestamp == 0, !r.executable { unimplemented!() }
-    // ASSUMED (R8): the derived Clone copies
-    #[verifier::external_body] fn clone(&self) -> (r: FileState) ensures r == *self { unimplemented!() }
 }
+// ASSUMED (R8): the derived Clone of FileState copies
+impl Clone for FileState { #[verifier::external_body] fn clone(&self) -> (r: Self) ensures r == *self { unimplemented!() } }
 // closure #1 of CurrentFileStates::take_blob: the entry of one path is taken OUT of the table (take_blob applies it to every path,
 // through Blob::from_paths -- iterator map/collect over an FnMut, outside Verus' reach: R4)
 //@ extract current.rs impl /CurrentFileStates<SystemType>$/ fn take_blob closure 1
-//@ props C18 C07 C04
+//@ props C18 C07 C04 C08
 //@ sig fn take_one<SystemType: System>(this: &mut CurrentFileStates<SystemType>, path: &str) -> (res: FileState)
 //@ rewrite * /self\.inside\.file_states\.(remove|get)\(path\)/ => map_\1_str(&mut this.inside.file_states, path)
 //@ spec
     ensures
         // what a rule's thread is handed is no longer remembered by the table: a rule that then fails (its blob is not handed back)
-        // leaves nothing remembered about its targets, whatever it did to them                                       //# O-H-take-forgets [C18,C07,C04]
+        // leaves nothing remembered about its targets, whatever it did to them                                       //# O-H-take-forgets [C18,C07,C04,C08]
         !final(this).inside.file_states@.contains_key(skey(path@)),
         final(this).inside.file_states@ == old(this).inside.file_states@.remove(skey(path@)), final(this).path == old(this).path,
         // the entry handed out is the remembered one, or the empty state                                              //# O-H-take-entry [C18]
